@@ -10,7 +10,7 @@ indexing / layout / shape-arithmetic computation traced on placeholders (`Identi
 inlined).  `eval` is the meaning of those ONNX operators on integer-valued N-d index-function tensors
 (`Tensor Int`; booleans are 0/1): `Slice`, `Gather`, `Unsqueeze`, `Squeeze`, `Transpose`, `Reshape(allowzero=1)`,
 `Expand`, `Concat`, `Shape`, `Range`, `Cast`, `Add/Sub/Mul`, `Mod(fmod=0)`, `Equal`, `Where`, `Reduce*`, `Compress(axis=0)`,
-`GatherElements(axis=0)`, `ScatterND`.  The data-movement
+`GatherElements(axis=0)`, `ScatterND`, `CumSum`.  The data-movement
 operators do not inspect the elements, so what is proved about them on integer tokens is what ONNX specifies for
 every element type (`T: tensor(...)` of any type); the check repeats the structural comparison for every dtype.
 
@@ -54,6 +54,7 @@ inductive TG where
   | compress (x cond : TG)                           -- Compress(axis = 0)
   | gatherElements (x idx : TG)                      -- GatherElements(axis = 0)
   | scatterND (x idx upd : TG)                       -- ScatterND(reduction = none)
+  | cumsum (x axis : TG)                             -- CumSum(exclusive = 0, reverse = 0) on int64
 deriving DecidableEq, Repr, Inhabited
 
 /-! ## operator semantics -/
@@ -211,6 +212,12 @@ def scatterNDOp (t : Tensor α) (idx : Tensor Int) (upd : Tensor α) : Tensor α
     | some o => upd.get (o ++ p.drop k)
     | none => t.get p⟩
 
+/-- `CumSum(exclusive=0, reverse=0)` on int64 data: the running int64 (wrap-around) sum along `axis`. -/
+def cumsumOp (t : Tensor Int) (axis : Int) : Tensor Int :=
+  let ax := normAxis t.rank axis
+  ⟨t.shape, fun ix =>
+    ((List.range (ix.getD ax 0 + 1)).map (fun j => t.get (ix.set ax j))).foldl (fun acc v => C02.wrapS 64 (acc + v)) 0⟩
+
 /-! ## evaluation -/
 
 def TG.eval (env : List (Tensor Int)) : TG → Tensor Int
@@ -238,6 +245,7 @@ def TG.eval (env : List (Tensor Int)) : TG → Tensor Int
   | .compress x c => compressOp (TG.eval env x) (TG.eval env c)
   | .gatherElements x i => gatherElementsOp (TG.eval env x) (TG.eval env i)
   | .scatterND x i u => scatterNDOp (TG.eval env x) (TG.eval env i) (TG.eval env u)
+  | .cumsum x a => cumsumOp (TG.eval env x) ((TG.eval env a).get [])
 
 /-! ## canonical text (identical to the translator's rendering) -/
 
@@ -274,5 +282,6 @@ def TG.render : TG → String
   | .compress x c => s!"(Compress0 {TG.render x} {TG.render c})"
   | .gatherElements x i => s!"(GatherElements0 {TG.render x} {TG.render i})"
   | .scatterND x i u => s!"(ScatterND {TG.render x} {TG.render i} {TG.render u})"
+  | .cumsum x a => s!"(CumSum {TG.render x} {TG.render a})"
 
 end Ndx.TGraph
